@@ -166,6 +166,23 @@ func runC03() {
 				break
 			}
 		}
+		// context sizes around the 500 bytes With() reserves, one byte at a time (a context that exactly fills its
+		// buffer is the case where "has a buffer / has room" tests flip), followed by every derivation step
+		for L := 440; L <= 520; L++ {
+			first := seqx.Step{Op: "With", Fields: []seqx.Field{{M: "Str", Key: "first", Val: strings.Repeat("f", L)}}}
+			for _, s2 := range stepAlphabet(1) {
+				for _, ef := range redForms[:4] {
+					idx++
+					if idx%int64(n) != int64(shard) {
+						continue
+					}
+					p := seqx.Program{Steps: []seqx.Step{first, s2}, Entry: ef.entry, Fields: ef.fields, Final: ef.final}
+					out := seqx.Run(p)
+					r.Transitions += 3
+					checkC03(r, p, out)
+				}
+			}
+		}
 		// the package-level helpers of zerolog/log must derive exactly what the methods derive
 		if shard == 0 {
 			logHelpers(r)
